@@ -305,10 +305,13 @@ func runPair(r *vh.Rng, directed int) *pairScen {
 		}
 		// a reply timer armed with the 66000 ns default expires at once: it is a timeout label
 		if lb == "LTimeoutS" && before.State == 11 && before.TimerRunning && before.TimerType == 1 && !allowS {
-			for i := 0; i < 300 && sv.conn.VerifSnapshot().State == 11; i++ {
+			for i := 0; i < 400; i++ {
+				if st := sv.conn.VerifSnapshot().State; st == 15 || st == 39 {
+					break
+				}
 				time.Sleep(time.Millisecond)
 			}
-			time.Sleep(10 * time.Millisecond)
+			time.Sleep(20 * time.Millisecond)
 			sc.labels = append(sc.labels, "LTimeoutS")
 			sc.sums = append(sc.sums, sum())
 		}
